@@ -1,53 +1,126 @@
 import RtcModel.Latch
+import RtcModel.LatchRace
 import RtcModel.Drv.Util
 namespace RtcModel.Drv.C18
 open RtcModel.Latch RtcModel.Drv
+
+def parseAddr (ip port : String) : Option Addr := do some ⟨← ip.toNat?, ← port.toNat?⟩
 
 def parseOp (t : String) : Option Op :=
   match fields t with
   | ["p", ip, port, hx] => do
       let bs ← unhex hx
-      some (.pkt ⟨← ip.toNat?, ← port.toNat?⟩ (classify bs))
+      some (.pkt (← parseAddr ip port) (classify bs))
   | ["en"] => some .enable
   | ["rs"] => some .reset
-  | ["sg", ip, port] => do some (.sig ⟨← ip.toNat?, ← port.toNat?⟩)
-  | ["pr", ip, port] => do some (.pair ⟨← ip.toNat?, ← port.toNat?⟩)
+  | ["sg", ip, port] => do some (.sig (← parseAddr ip port))
+  | ["pr", ip, port] => do some (.pair (← parseAddr ip port))
   | ["ss", v] => do some (.ssrc (← v.toNat?))
   | ["mp", v] => do some (.maxp (← v.toNat?))
   | ["ra", "-"] => some (.rtcpAddr none)
-  | ["ra", ip, port] => do some (.rtcpAddr (some ⟨← ip.toNat?, ← port.toNat?⟩))
+  | ["ra", ip, port] => do some (.rtcpAddr (some (← parseAddr ip port)))
   | _ => none
 
 def showAddr (a : Addr) : String := s!"{a.ip}:{a.port}"
 
-def showSt (s : St) (fwd : String) : String :=
+def showCand (c : Cand) : String :=
+  s!"{showAddr c.addr},{c.firstSeq},{c.lastSeq},{c.firstTs},{c.packetCount},{c.consecutive},{b01 c.hasMarker}"
+
+/-- the hidden probation table, as the `verif_latch_state` hook prints it -/
+def showProb : Option Prob → String
+  | none => "-"
+  | some p => s!"T{p.total}M{p.max}[{";".intercalate (p.cands.map showCand)}]"
+
+/-- one observation; an unchanged probation table is printed as `=` -/
+def showSt (s : St) (fwd : String) (prev : Option String) : String × String :=
   let r := match s.rtcpRemote with | none => "-" | some a => showAddr a
-  s!"{showAddr s.remote}/{r}/{b01 s.rtpLatched}/{b01 s.rtcpLatched}/{fwd}"
+  let pt := showProb s.prob
+  let shown := if prev = some pt then "=" else pt
+  (s!"{showAddr s.remote}/{r}/{b01 s.rtpLatched}/{b01 s.rtcpLatched}/{fwd}/{b01 s.latchOn}/{s.expected}/{s.maxPackets}/{shown}", pt)
 
 def fwdText (o : Op) : String :=
   match o with
   | .pkt _ k => match fwdOf k with | .none => "none" | .dtls => "dtls" | .rtp => "rtp"
   | _ => "-"
 
-/-- `latch <id> init,ip,port,maxp,tcp op op …` -/
+def runOps (s0 : St) (ops : List String) : String :=
+  let rec go (s : St) (prev : String) (ops : List String) (acc : List String) : List String :=
+    match ops with
+    | [] => acc.reverse
+    | t :: rest =>
+      match parseOp t with
+      | none => ("bad-op" :: acc).reverse
+      | some o =>
+        let s' := step s o
+        let (txt, pt) := showSt s' (fwdText o) (some prev)
+        go s' pt rest (txt :: acc)
+  let (t0, p0) := showSt s0 "-" none
+  " ".intercalate (go s0 p0 ops [t0])
+
+def splitBar (ws : List String) : List (List String) :=
+  ws.foldr (fun w acc => if w = "|" then [] :: acc else match acc with | [] => [[w]] | g :: gs => (w :: g) :: gs) [[]]
+
+/-- `race <id> init,… op … | p,ip,port,hex | api-op | schedule` — the final state of the
+interleaving machine for that schedule (plus the harness's tail `rsrs…` that lets both finish) -/
+def handleRace (args : List String) : String :=
+  open RtcModel.LatchRace in
+  match splitBar args with
+  | [ini :: ops, [pk], [api], [sched]] =>
+    match fields ini with
+    | ["init", ip, port, maxp, tcp] =>
+      match ip.toNat?, port.toNat?, maxp.toNat?, ops.mapM parseOp, parseOp pk, parseOp api with
+      | some ip, some port, some maxp, some ops, some (.pkt a (.rtp ssrc seq ts m)), some apiOp =>
+        match apiCrit apiOp with
+        | some A =>
+          let s0 := run (init ⟨ip, port⟩ maxp (tcp = "1")) ops
+          if s0.latchOn ∧ (s0.expected = 0 ∨ ssrc = s0.expected) then
+            let bits := (sched.toList ++ "rsrsrsrsrsrsrsrsrsrs".toList).map (fun c => c == 'r')
+            let y := runSched (recvCrit a ssrc seq ts m) A { st := s0, r := .start, a := .start } bits
+            if rDone y.r ∧ aDone y.a then (showSt y.st "-" none).1 else "not-finished"
+          else "race-model-needs-latching-and-expected-ssrc-rtp"
+        | none => "bad-api"
+      | _, _, _, _, _, _ => "bad-race-args"
+    | _ => "bad-init"
+  | _ => "bad-race"
+
+/-- `latch <id> init,ip,port,maxp,tcp op op …` — a bare `IceConn`.
+    `pc <id> init,ip,port,maxp,tcp op op …` — the same ops as issued by a real `PeerConnection`
+    (SDP retargets, pair-monitor updates, UDP packets); only the public part is compared.
+    `writers <id> <file:count …>` — every writer of `remote_addr` is a modelled site.
+    `race <id> …` — see `handleRace` / `RtcModel.LatchRace`.
+ -/
 def handle (stream : String) (args : List String) : String :=
   match stream, args with
   | "latch", ini :: ops =>
     match fields ini with
     | ["init", ip, port, maxp, tcp] =>
       match ip.toNat?, port.toNat?, maxp.toNat? with
+      | some ip, some port, some maxp => runOps (init ⟨ip, port⟩ maxp (tcp = "1")) ops
+      | _, _, _ => "bad-init"
+    | _ => "bad-init"
+  | "pc", ini :: ops =>
+    match fields ini with
+    | ["init", ip, port, maxp, _] =>
+      match ip.toNat?, port.toNat?, maxp.toNat? with
       | some ip, some port, some maxp =>
-        let s0 := init ⟨ip, port⟩ maxp (tcp = "1")
-        let rec go (s : St) (ops : List String) (acc : List String) : List String :=
+        let pub (s : St) : String := s!"{showAddr s.remote}/{b01 s.rtpLatched}"
+        -- ops before `|` happen inside `set_remote_description` and are applied silently
+        let rec go (s : St) (silent : Bool) (ops : List String) (acc : List String) : List String :=
           match ops with
           | [] => acc.reverse
+          | "|" :: rest => go s false rest (pub s :: acc)
           | t :: rest =>
             match parseOp t with
             | none => ("bad-op" :: acc).reverse
-            | some o => let s' := step s o; go s' rest (showSt s' (fwdText o) :: acc)
-        " ".intercalate (go s0 ops [showSt s0 "-"])
+            | some o => let s' := step s o; go s' silent rest (if silent then acc else pub s' :: acc)
+        " ".intercalate (go (init ⟨ip, port⟩ maxp false) true ops [])
       | _, _, _ => "bad-init"
     | _ => "bad-init"
+  | "race", args => handleRace args
+  | "writers", sites => " ".intercalate (sites.map fun s =>
+      match s.splitOn "=" with
+      | [f, n] => if RtcModel.Latch.modelledWriters f = n.toNat? then s!"{f}=ok" else s!"{f}=UNMODELLED-WRITER"
+      | _ => "bad-site")
   | _, _ => "bad-stream"
 
 end RtcModel.Drv.C18
